@@ -88,12 +88,26 @@ def run(tier):
             if got[key].shape != want.shape or not all(SL.close(a, b, scale=mag * slack) for a, b in zip(got[key], want)):
                 ck.violation(f"{key}: true derivative with respect to the model parameters (chain rule through the Jacobian)",
                              {**ident, "want": want, "got": got[key]}, site=f"{cname}.{key}")
+        # the parameter vector is the caller's: the same array modified IN PLACE between two calls gives the value at its new content
+        if ci % 6 == 1:
+            th = theta.copy()
+            with np.errstate(all="ignore"):
+                v_a = float(L(th))
+                th += np.array([0.5, -0.25])
+                v_b, g_b = float(L(th)), np.asarray(L.gradient(th), dtype=float)
+                fresh_b, fresh_g = float(L(th.copy())), np.asarray(L.gradient(th.copy()), dtype=float)
+                th -= np.array([0.5, -0.25])
+                v_c = float(L(th))
+            if not ((v_b == fresh_b or (np.isnan(v_b) and np.isnan(fresh_b))) and np.array_equal(g_b, fresh_g, equal_nan=True) and v_c == v_a == got["value"]):
+                ck.violation("value / gradient at the current content of a parameter array that the caller modified in place between calls",
+                             {**ident, "first": v_a, "after_in_place_change": v_b, "fresh_array_same_content": fresh_b, "after_changing_back": v_c},
+                             site=f"{cname}.__call__:stale-state")
         # the same likelihood from other accepted input forms (lists; column-vector uncertainties): same value and gradient
         if ci % 5 == 0:
             unc = sig if kind == "logistic" else scale
             forms = [dict(y_data=[float(v) for v in y], unc=[float(v) for v in unc]), dict(y_data=y.reshape(-1, 1), unc=np.asarray(unc).reshape(-1, 1)),
-                     dict(y_data=y.copy(), unc=[[float(v)] for v in unc])]
-            f_ = forms[(ci // 5) % 3]
+                     dict(y_data=y.copy(), unc=[[float(v)] for v in unc]), dict(y_data=y.reshape(1, -1), unc=np.asarray(unc).reshape(1, -1))]
+            f_ = forms[(ci // 5) % 4]
             try:
                 L2 = type(L)(y_data=f_["y_data"], forward_model=model, forward_model_jacobian=model.jac,
                              **({"gamma": f_["unc"]} if kind == "cauchy" else {"sigma": f_["unc"]}))
